@@ -163,3 +163,104 @@ theorem filter_getLast {α : Type} (p : α → Bool) : ∀ (l : List α) (t : α
 
 
 end Ecal.Props.C03
+
+/-! ### every error of the reference evaluation (and its variant as the code attaches it) is admissible -/
+namespace Ecal.Props.C03
+open Ecal.Expr Ecal.Expr.Spec
+
+section Adm
+variable {N : Type} (G : Cfg N)
+
+theorem binSem_err_mem (o : BinOp) (n1 n2 : Str) (v1 v2 : Val N) (k : ErrKind) (s : Str) (p : Option Nat)
+    (h : Spec.binSem G o n1 n2 v1 v2 = .err k s p) :
+    (k, s, p) ∈ ownLeft o n1 v1 ++ ownRight o n2 v2 ++ ownBoth G o v1 v2 ∧
+    (k, s, quirkNode k p) ∈ ownLeft o n1 v1 ++ ownRight o n2 v2 ++ ownBoth G o v1 v2 := by
+  cases o <;> cases v1 <;> cases v2 <;>
+    simp only [Spec.binSem, Spec.arith, Spec.logic, Spec.member, Spec.compare] at h <;>
+    (try (split at h)) <;> (try (split at h)) <;> (try (split at h)) <;>
+    (try cases h) <;>
+    simp_all [ownLeft, ownRight, ownBoth, quirkNode] <;>
+    (try (split <;> simp_all))
+
+mutual
+theorem spec_err_mem : ∀ (e : Expr) (k : ErrKind) (s : Str) (p : Option Nat), Spec.eval G e = .err k s p →
+    (k, s, p) ∈ Spec.errSet G e ∧ (k, s, quirkNode k p) ∈ Spec.errSet G e
+  | .atom a, k, s, p, h => by simp [Spec.eval] at h
+  | .list its, k, s, p, h => by
+    simp only [Spec.eval] at h
+    cases hi : Spec.evalItems G its with
+    | ok vs => rw [hi] at h; cases h
+    | error x =>
+      obtain ⟨k', s', p'⟩ := x
+      rw [hi] at h
+      simp only [Out.err.injEq] at h
+      obtain ⟨rfl, rfl, rfl⟩ := h
+      simpa [Spec.errSet] using specItems_err_mem its _ _ _ hi
+  | .bin o t l r, k, s, p, h => by
+    simp only [Spec.eval] at h
+    simp only [Spec.errSet]
+    cases hl : Spec.eval G l with
+    | err k1 s1 p1 =>
+      rw [hl] at h
+      simp only [Out.err.injEq] at h
+      obtain ⟨rfl, rfl, rfl⟩ := h
+      have := spec_err_mem l _ _ _ hl
+      simp [this.1, this.2]
+    | val v1 =>
+      rw [hl] at h
+      cases hr : Spec.eval G r with
+      | err k2 s2 p2 =>
+        rw [hr] at h
+        simp only [Out.err.injEq] at h
+        obtain ⟨rfl, rfl, rfl⟩ := h
+        have := spec_err_mem r _ _ _ hr
+        simp [this.1, this.2]
+      | val v2 =>
+        rw [hr] at h
+        have := binSem_err_mem G o (opName l) (opName r) v1 v2 k s p h
+        simp only [List.mem_append] at this ⊢
+        exact ⟨Or.inr this.1, Or.inr this.2⟩
+  | .pre q t x, k, s, p, h => by
+    simp only [Spec.eval] at h
+    simp only [Spec.errSet]
+    cases hx : Spec.eval G x with
+    | err k1 s1 p1 =>
+      rw [hx] at h
+      simp only [Out.err.injEq] at h
+      obtain ⟨rfl, rfl, rfl⟩ := h
+      have := spec_err_mem x _ _ _ hx
+      simp [this.1, this.2]
+    | val v =>
+      rw [hx] at h
+      simp only [h, List.mem_append, List.mem_singleton, true_or, or_true, true_and]
+      right
+      -- a prefix operator's error is attached to child 0: the code's variant is the same
+      cases q <;> cases v <;> simp [Spec.preSem] at h <;> (obtain ⟨rfl, rfl, rfl⟩ := h) <;> simp [quirkNode]
+theorem specItems_err_mem : ∀ (its : Items) (k : ErrKind) (s : Str) (p : Option Nat),
+    Spec.evalItems G its = .error (k, s, p) →
+    (k, s, p) ∈ Spec.errSetItems G its ∧ (k, s, quirkNode k p) ∈ Spec.errSetItems G its
+  | .nil, k, s, p, h => by simp [Spec.evalItems] at h
+  | .cons e rest, k, s, p, h => by
+    simp only [Spec.evalItems] at h
+    simp only [Spec.errSetItems, List.mem_append]
+    cases he : Spec.eval G e with
+    | err k1 s1 p1 =>
+      rw [he] at h
+      simp only [Except.error.injEq, Prod.mk.injEq] at h
+      obtain ⟨rfl, rfl, rfl⟩ := h
+      have := spec_err_mem e _ _ _ he
+      exact ⟨Or.inl this.1, Or.inl this.2⟩
+    | val v =>
+      rw [he] at h
+      cases hr : Spec.evalItems G rest with
+      | ok vs => rw [hr] at h; cases h
+      | error x =>
+        rw [hr] at h
+        simp only [Except.error.injEq] at h
+        subst h
+        have := specItems_err_mem rest _ _ _ hr
+        exact ⟨Or.inr this.1, Or.inr this.2⟩
+end
+
+end Adm
+end Ecal.Props.C03
